@@ -947,3 +947,6 @@ fn should_execute_firm_block(
         CommitLevel::FirmOnly => true,
     }
 }
+
+#[cfg(feature = "verif")]
+pub(crate) mod verif_hooks;
